@@ -238,7 +238,9 @@ def main():
             detected, cannot, checks = [], [], {}
             info = INFO.get(sid, ("", ""))
             if not info[0] and os.path.exists(os.path.join(d, "notes.md")):
-                info = (open(os.path.join(d, "notes.md")).read().strip().split("\n")[0][:200], "see notes.md")
+                first = open(os.path.join(d, "notes.md")).read().strip().split("\n")[0].lstrip("# ").strip()
+                first = __import__("re").sub(r"^%s\s*[-:\u2013\u2014]+\s*" % __import__("re").escape(sid), "", first)
+                info = (first[:240], "see notes.md")
             meta = {
                 "id": sid,
                 "property_targeted": XPROP.get(sid, (__import__("re").match(r"C\d+", sid).group(0) if __import__("re").match(r"C\d+", sid) else sid.split("-")[0])),
